@@ -36,6 +36,8 @@ CLAIMED = {
 }
 
 CLAIMED.update({
+    "C15": ("the input of schema generation is a type, so the type itself is symbolic: reflect.Type is served by descriptors whose kind is a solver variable and whose "
+            "edges, fields, tags, sharing and cycles are decided by forking; the real schemaForType / buildCodec run on them and are compared with a reference transcription of the mapping", "DESIGN.md C15"),
     "C18": ("all strings <= 40 bytes for no-panic; the full RFC 3339 grammar with every digit a solver variable for agreement with time.Date on the parsed fields; "
             "replayed strings are cross-checked against time.Parse natively", "DESIGN.md C18"),
     "C19": ("full-range symbolic integers / instants through the real time codecs against an abstract model of time.Time; multiplications and divisions by constants bit-blasted", "DESIGN.md C19"),
